@@ -601,4 +601,22 @@ def rule_own_magnitudes(ck):
      o.fail('the forecast does not keep the region returned by create_space_magnitude_region'))
 
 
-RULES = [rule_scaling, rule_schema, rule_lookup, rule_axes, rule_loaders, rule_quadtree_schema, rule_spacing, rule_rank, rule_tolerance_shared, rule_own_magnitudes]
+def rule_precision(ck):
+    """C11-D1.double: numbers stay in the precision they were supplied in - no conversion of rates / counts / statistics to a narrower type
+    (shared reading with C05-D5.double)"""
+    from .common import rule_double_precision
+    ck.clause('D1')
+    rule_double_precision(ck, 'C11-D1.double', modules=('csep.core.forecasts',), what='the rates read from the file')
+
+
+def rule_cell_identity(ck):
+    """row k of the rate array belongs to cell k of the region: the region constructors keep the cells in the order the loader hands
+    them over (shared C20-D3.keeporder) and a point has one owner among the quadtree tiles whatever their order (shared C17-D1)"""
+    from . import c20, c17
+    ck.clause('D2 (shared C20-D3: regions keep the cell order of the file)')
+    c20.rule_keeporder(ck)
+    ck.clause('D3 (shared C17-D1: one owning tile per point)')
+    c17.rule_ownership(ck)
+
+
+RULES = [rule_scaling, rule_schema, rule_lookup, rule_axes, rule_loaders, rule_quadtree_schema, rule_spacing, rule_rank, rule_tolerance_shared, rule_own_magnitudes, rule_precision, rule_cell_identity]
